@@ -82,7 +82,7 @@ def run(rep, tier):
     sites, reach = inv.run([vm.fn])
     rep.analysed(*sorted(reach))
     rows = [
-        Row("R06.h/wide-load-not-last", r".", r"^precond:.*<-.*panic_fmt\(", "D3",
+        Row("R06.h/wide-load-not-last", r".", r"^precond:(ebpf::get_insn|[\w:]+@ebpf::get_insn|verifier::\w+)<-panic!(panic|assert|debug_assert)@", "D3",
             "the wide load's second slot exists: the last instruction is EXIT or JA (checked before the loop, R06.d), "
             "so an LD_DW_IMM at index i has i + 1 < n", cites=("R06.d", "R06.i")),
     ]
